@@ -137,6 +137,9 @@ func checkC17(c *Ctx, r *Report) {
 		inputWriteObligations(r, p, e, arch)
 		c17Scratch(r, p, e, arch)
 		c17Fresh(r, p, arch)
+		if arch == "amd64" {
+			freshResultObligations(r, p, e) // no API hands out a mutable object that shares storage with package-level state
+		}
 		if u != nil {
 			for _, rt := range u.Routines {
 				if !rt.HasDecl {
